@@ -18,6 +18,7 @@ Comparer tokens:
 atom  ::= fa_<F>_<F> | tw_<int> | dw_<int> | dp_<F>
 vspec ::= atom | VA(atom+...) | VO(atom+...)
 mspec ::= E[vspec;...] | MA{E[..]|E[..]...} | MO{...} | none
+inc   ::= any | gt:<num>:<F> | lt:<num>:<F> | ge:<num>:<F>
 ```
 -/
 namespace ScVerif.C16
@@ -174,6 +175,31 @@ def parseFilter? (s : String) : Option (Val → Val) :=
     ((splitNonEmpty ((s.drop 1).toString) ".").mapM parseNat?).map keepTop
   else none
 
+/-- Include predicates of the closed family used by the tie: `any` (no include filter), or
+`gt:<num>:<F>` / `lt:<num>:<F>` / `ge:<num>:<F>`: the float field `num` (0 when unset) compared with a threshold. -/
+def floatField (num : Nat) : Val → F
+  | .msg _ _ fs _ =>
+    match fs.toList.find? (fun p => p.1.num == num) with
+    | some (_, .one (.sc (.float f))) => f
+    | _ => .fin 0 false
+  | _ => .fin 0 false
+
+def parseInc? (s : String) : Option (Option (Val → Bool)) :=
+  if s = "any" then some none
+  else match s.splitOn ":" with
+    | [op, n, t] => do
+      let num ← parseNat? n
+      let thr ← parseF? t
+      if op = "gt" then pure (some (fun v => F.lt thr (floatField num v)))
+      else if op = "lt" then pure (some (fun v => F.lt (floatField num v) thr))
+      else if op = "ge" then pure (some (fun v => F.le thr (floatField num v)))
+      else none
+    | _ => none
+
+def showDec : Option CDecision → String
+  | none => "0"
+  | some d => if d.delivered then "1" else "0"
+
 def showBits (bs : List Bool) : String := String.join (bs.map (fun b => if b then "1" else "0"))
 
 def pairUp : List Top → Option (List CEvent)
@@ -200,12 +226,13 @@ def handle? (toks : List String) : Option String :=
     let cur ← parseTop? cur
     let evs ← evs.mapM parseTree?
     pure ("d=" ++ showBits ((valuePull e flt cur evs).map (·.delivered)))
-  | "cpull" :: m :: f :: evs => do
+  | "cpull" :: m :: f :: i :: evs => do
     let e ← parseOptMSpec? m
     let flt ← parseFilter? f
+    let inc ← parseInc? i
     let tops ← evs.mapM parseTop?
     let ces ← pairUp tops
-    pure ("d=" ++ showBits ((collPullLoop e flt ces).map (·.delivered)))
+    pure ("d=" ++ String.join ((collPullLoopI e flt inc ces).map showDec))
   | _ => none
 
 def handle (toks : List String) : String :=
